@@ -4,6 +4,7 @@ import (
 	"bytes"
 	"encoding/binary"
 	"fmt"
+	"io"
 	"sync/atomic"
 	"time"
 
@@ -23,6 +24,18 @@ type c08Case struct {
 
 // c08Judge runs one stream through the real Reader and returns (class, detail, consumedPayload).
 func c08Judge(stream []byte, crc bool, readSize, srcChunk int) (class, detail string, nontrivial bool) {
+	class, detail, nontrivial, _ = c08JudgeV(stream, crc, readSize, srcChunk)
+	return
+}
+
+// c08JudgeV additionally returns the verdict: 0 none (constructor refused / no terminal result), 1 Close
+// returned nil after a normal end of stream, 2 Read or Close reported an error.
+func c08JudgeV(stream []byte, crc bool, readSize, srcChunk int) (class, detail string, nontrivial bool, verdict int) {
+	class, detail, nontrivial, verdict = c08JudgeInner(stream, crc, readSize, srcChunk)
+	return
+}
+
+func c08JudgeInner(stream []byte, crc bool, readSize, srcChunk int) (class, detail string, nontrivial bool, verdict int) {
 	post := stream
 	var hdrCRC uint16
 	if crc {
@@ -43,10 +56,10 @@ func c08Judge(stream []byte, crc bool, readSize, srcChunk int) (class, detail st
 	}
 	o := libDecode(stream, crc, []int{readSize}, srcChunk, limit)
 	if o.Panic != "" {
-		return "panic|" + o.Site, o.Panic, true
+		return "panic|" + o.Site, o.Panic, true, 0
 	}
 	if o.NewErr != nil {
-		return "", "", false // constructor refused the header: fine
+		return "", "", false, 0 // constructor refused the header: fine
 	}
 	ref := rl.DecodeRaw(post)
 	nontrivial = ref.BitsUsed > 0
@@ -60,35 +73,35 @@ func c08Judge(stream []byte, crc bool, readSize, srcChunk int) (class, detail st
 		shape = "truncated-stream"
 	}
 	if o.Livelock {
-		return "livelock|" + shape, fmt.Sprintf("Read returned (0,nil) 64 times in a row after %d bytes (declared size %d)", len(o.Data), declared), nontrivial
+		return "livelock|" + shape, fmt.Sprintf("Read returned (0,nil) 64 times in a row after %d bytes (declared size %d)", len(o.Data), declared), nontrivial, 0
 	}
 	max := declared
 	if max < 0 {
 		max = 0
 	}
 	if int64(len(o.Data)) > max {
-		return "more-than-declared|" + shape, fmt.Sprintf("%d bytes read, declared %d", len(o.Data), declared), nontrivial
+		return "more-than-declared|" + shape, fmt.Sprintf("%d bytes read, declared %d", len(o.Data), declared), nontrivial, 0
 	}
 	if o.TooMany {
-		return "unbounded-output|" + shape, fmt.Sprintf("%d bytes and counting", len(o.Data)), nontrivial
+		return "unbounded-output|" + shape, fmt.Sprintf("%d bytes and counting", len(o.Data)), nontrivial, 0
 	}
 	if o.ReadErr == nil {
-		return "no-terminal-result|" + shape, "", nontrivial
+		return "no-terminal-result|" + shape, "", nontrivial, 0
 	}
 	if o.CloseErr == nil {
 		// integrity verdict must be sound
 		if int64(len(o.Data)) != declared {
-			return "close-ok-size-mismatch|" + shape, fmt.Sprintf("%d bytes read, declared %d", len(o.Data), declared), nontrivial
+			return "close-ok-size-mismatch|" + shape, fmt.Sprintf("%d bytes read, declared %d", len(o.Data), declared), nontrivial, 0
 		}
 		if ref.Truncated {
-			return "close-ok-on-truncated-stream", fmt.Sprintf("canonical decoding runs out of bits after %d bytes", len(ref.Data)), nontrivial
+			return "close-ok-on-truncated-stream", fmt.Sprintf("canonical decoding runs out of bits after %d bytes", len(ref.Data)), nontrivial, 1
 		}
 		want := ref.Data
 		if int64(len(want)) > declared {
 			want = want[:declared]
 		}
 		if !bytes.Equal(o.Data, want) {
-			return "close-ok-wrong-bytes", fmt.Sprintf("lib %q canonical %q", core.Trunc(string(o.Data), 60), core.Trunc(string(want), 60)), nontrivial
+			return "close-ok-wrong-bytes", fmt.Sprintf("lib %q canonical %q", core.Trunc(string(o.Data), 60), core.Trunc(string(want), 60)), nontrivial, 1
 		}
 		if crc {
 			min := 4 + (ref.BitsUsed+7)/8
@@ -100,11 +113,15 @@ func c08Judge(stream []byte, crc bool, readSize, srcChunk int) (class, detail st
 				}
 			}
 			if !ok {
-				return "close-ok-bad-crc", fmt.Sprintf("header CRC %04x matches no prefix of the stream of at least %d bytes", hdrCRC, min), nontrivial
+				return "close-ok-bad-crc", fmt.Sprintf("header CRC %04x matches no prefix of the stream of at least %d bytes", hdrCRC, min), nontrivial, 1
 			}
 		}
 	}
-	return "", "", nontrivial
+	verdict = 2
+	if o.CloseErr == nil && o.ReadErr == io.EOF {
+		verdict = 1
+	}
+	return "", "", nontrivial, verdict
 }
 
 func c08Corpus(thorough bool) [][]byte {
